@@ -97,8 +97,8 @@ def columns(schema, K, dk, wide=False):
         except Exception:
             return '.sql raised'
         reached()
-        if sql_t != sql:
-            return 'table-level and database-level SQL differ for a single-table database'
+        if sql.count(sql_t) != 1:
+            return 'the table-level SQL does not appear exactly once in the database-level SQL'
         return _check(sql, expected) or ''
 
     def describe(a):
